@@ -108,7 +108,6 @@ theorem not_inert_of_kind {t : Queue.Thread} {kd : Queue.PKind} (h : pcKind t.pc
 
 /-! ### the views after one step -/
 
-set_option maxHeartbeats 800000 in
 theorem vlive_step {c c' : Cfg} {tid : Queue.Tid} {lbl : String}
     (hG : GInv c) (hG' : GInv c') (hI : IInv c) (hU : UInv c) (hS : SInv c) (hS' : SInv c') (hV : VInv c)
     (h : step c tid = some (lbl, c')) :
@@ -427,7 +426,6 @@ theorem vinv_init (p : Nat) (progs : List Prog) (hreq : Requests progs) : VInv (
   · intro tid t ht hpc; rw [(hstart tid t ht).1] at hpc; cases hpc
   · intro k hk; simp [init] at hk
 
-set_option maxHeartbeats 800000 in
 theorem vinv_step {c c' : Cfg} {tid : Queue.Tid} {lbl : String}
     (hG : GInv c) (hG' : GInv c') (hI : IInv c) (hU : UInv c) (hS : SInv c) (hS' : SInv c') (hV : VInv c)
     (h : step c tid = some (lbl, c')) : VInv c' := by
